@@ -127,7 +127,7 @@ def run_case(case, ctx):
     import circuitgraph as cg
 
     p = case["c"]
-    c = build(p)
+    c = build(p, case.get("ord"))
     if case["op"] == "sens_list":
         # list argument: one result per node, each judged like the single-node call
         ns = [n for n in case["nodes"] if has_startpoint(c, n)]
